@@ -151,6 +151,22 @@ def run(ctx):
                 if np.abs(a - b).max() > 3e-2 * a.max():
                     ctx.violation({'kind': 'image-after-rescale', 'upscale': s > 1, 'nseg>1': nseg > 1},
                                   {'shape': shape, 'scale': s, 'max_rel_diff': float(np.abs(a - b).max() / a.max())}, case=None)
+    # an OPD (or amplitude) value of exactly zero is a value, not "no data": a smooth OPD with nodal lines ON the sampling grid
+    # (x*y, tilt, coma written on the centred grid) is resampled as well as the same map plus a nanometre of piston
+    for n_ in (64, 63):
+        rr_, cc_ = np.meshgrid(np.arange(n_) - n_ // 2, np.arange(n_) - n_ // 2, indexing='ij')
+        amp_ = np.exp(-(rr_ ** 2 + cc_ ** 2) / (2 * (n_ / 9) ** 2))
+        for s_ in (1.5, 2.0, 3.0):
+            out_ = {}
+            for name_, opd_ in (('nodal', 120e-9 / (n_ / 4) * rr_ * cc_), ('piston', 120e-9 / (n_ / 4) * rr_ * cc_ + 1e-9)):
+                pl = lentil.Pupil(amplitude=amp_, opd=opd_, pixelscale=1e-3, focal_length=10.0)
+                i0 = lentil.propagate_dft(lentil.Wavefront(600e-9) * pl, pixelscale=4e-6, shape=48, oversample=1).intensity
+                i1 = lentil.propagate_dft(lentil.Wavefront(600e-9) * pl.rescale(s_), pixelscale=4e-6, shape=48, oversample=1).intensity
+                out_[name_] = float(np.abs(i1 - i0).max() / i0.max())
+            nleaf += 1
+            if out_['nodal'] > 1e-3 and out_['nodal'] > 50 * max(out_['piston'], 1e-7):
+                ctx.violation({'kind': 'image-after-rescale', 'opd_has_exact_zeros': True, 'upscale': True},
+                              {'shape': [n_, n_], 'scale': s_, 'max_rel_diff_with_nodal_lines': out_['nodal'], 'same_map_plus_1nm_piston': out_['piston']}, case=None)
     # a plane that carries fitted tilt is still the same optics after rescaling (odd sizes matter: the tilt pivots about the
     # array centre sample, so the content must be resampled about that sample as well)
     for shape, s_ in (((49, 49), 2.0), ((49, 49), 0.5), ((49, 61), 1.5), ((48, 48), 0.77), ((48, 48), 2.0)):
